@@ -217,6 +217,22 @@ class Analysis:
                         self.stats["c07_promises_nonempty_window"] += 1
                     if m.has_connected_trigger_input(sid) and anc_inflight:
                         self.stats["c07_promises_with_other_sim_inflight"] += 1
+                # ---- C16: A (source of an async_requests connection) must not begin a step later
+                # than t while an agent's step at t is unfinished -----------------------------------
+                for c in consumers[sid]:
+                    if c.get("async"):
+                        Lb = inflight[c["dst"]]
+                        self.stats["c16_order_checks"] += 1
+                        prev_done = max((d.get("done_i", -1) for d in D[sid].values() if d["done"]), default=-1)
+                        ag_done = max((d.get("done_i", -1) for d in D[c["dst"]].values() if d["done"]), default=-1)
+                        if ag_done > prev_done >= 0:
+                            # the agent finished a step after our previous step: the wait was real
+                            self.stats["c16_order_checks_agent_finished_meanwhile"] += 1
+                        if Lb is not None:
+                            self.stats["c16_order_checks_agent_inflight"] += 1
+                            if L[0] > Lb[0]:
+                                self.add("C16", "controlled_sim_overtakes_agent", sim=sid, label=list(L),
+                                         agent=c["dst"], agent_label=list(Lb), i=ev["i"])
                 # ---- C03 ---------------------------------------------------
                 self.check_inputs(ev, sid, L, prods, consumed, pending_set, delivered_at, conn_idx)
                 inflight[sid] = L
